@@ -46,10 +46,15 @@ M = [
  ("m34-bob-no-abort", ["C10"], "net/codec.rs", "                            writer\n                                .send(Message::Abort { reason })\n                                .await\n                                .map_err(|e| self.fail(e))?;\n", ""),
  ("m35-alice-abort-ok", ["C10"], "net/codec.rs", "            Message::Abort { reason } => {\n                return Err(ConnectError::remote_abort(reason));\n            }", "            Message::Abort { reason } => {\n                let _ = reason;\n                break;\n            }"),
  ("m36-heads-min", ["C13"], "store/fs.rs", "Some(existing) => e.timestamp() >= existing.value().0,", "Some(existing) => e.timestamp() <= existing.value().0,"),
- ("m37-wraparound-swap", ["C08","C01"], "store/fs.rs", "                let end = Bound::Excluded(range.y().to_byte_tuple());\n                let bounds = RecordsBounds::from_start(&self.namespace, end);", "                let end = Bound::Included(range.y().to_byte_tuple());\n                let bounds = RecordsBounds::from_start(&self.namespace, end);"),
+ ("m37-wraparound-first-half-whole", ["C08","C01"], "store/fs.rs", "                    None,\n                    Some(range.y().to_byte_tuple()),\n", "                    None,\n                    None,\n"),
  ("m38-parents-skip-markers", ["C02","C04"], "store/fs.rs", "let entry = get_exact(table, namespace, author, &key, true);", "let entry = get_exact(table, namespace, author, &key, false);"),
  ("m39-connect-abort-ignored", ["C11"], "engine/live.rs", "                if !self.state.is_connecting(&namespace, &peer) =>", "                if true || !self.state.is_connecting(&namespace, &peer) =>"),
  ("m40-shutdown-no-drain", ["C14"], "actor.rs", "        while self.action_rx.try_recv().is_ok() {}\n", ""),
+ ("m41-range-end-not-clamped", ["C08"], "store/fs/bounds.rs", "Bound::Excluded(end.min(ns_end))", "Bound::Excluded(end)"),
+ ("m42-range-start-not-clamped", ["C08"], "store/fs/bounds.rs", "Some(start) if start > ns_start => start,", "Some(start) => start,"),
+ ("m43-state-entry-first-document", ["C11"], "engine/state.rs", "        self.0\n            .get_mut(namespace)\n            .map(|n| n.nodes.entry(node).or_default())", "        if !self.0.contains_key(namespace) {\n            return None;\n        }\n        self.0\n            .values_mut()\n            .next()\n            .map(|n| n.nodes.entry(node).or_default())"),
+ ("m45-policy-of-last-document", ["C12","C15"], "store/fs.rs", "        let value = tables.download_policy.get(namespace.as_bytes())?;\n        Ok(match value {", "        let _ = namespace;\n        let value = tables.download_policy.last()?.map(|(_, v)| v);\n        Ok(match value {"),
+ ("m44-is-connecting-any-peer", ["C11"], "engine/state.rs", "            .and_then(|state| state.nodes.get(node))\n            .map(|peer| {", "            .and_then(|state| state.nodes.values().next().filter(|_| state.nodes.contains_key(node)))\n            .map(|peer| {"),
 ]
 
 def sh(cmd, timeout=None, **kw):
